@@ -305,7 +305,11 @@ end NonVacuity
 
 /-! ## Target -/
 
-/-- TARGET (NOT PROVED): C02 for whole operations — in every state satisfying the arena invariant
+/-- RESOLUTION (Props/Targets.lean): NOT resolved as stated (case C) — `C02.live_bytes_preserved_corrected` proves it
+    with `Arena.Hist.Inv` as witness for admissible configurations (`CfgOK`), covered operations and `RespsSane`
+    responses below `2^63` (see `C01.liveOK_invariant_corrected` for what the statement below asks beyond that).
+    History forms: `C02.reachable_live_bytes`, `C02.history_live_bytes` (Props/Hist.lean).
+    TARGET (NOT PROVED): C02 for whole operations — in every state satisfying the arena invariant
     (an inductive `Inv`, as in `C01.liveOK_invariant_target`), a step that does not fault leaves every byte of every
     block that stays live (and is not the target of a `.write`) unchanged.
     Proved: the memory-function level (`writeRange`, `copyBytes`, `zeroRange`), `… never_writes` for all
